@@ -92,10 +92,15 @@ func (a *extraAttribute) deserialize(b []byte) (int, error) {
 		return 0, ErrCorruptedData
 	}
 
-	a.extra = make([]byte, binary.BigEndian.Uint16(b))
-	copy(a.extra, b[sszSize:])
+	extraLen := int(binary.BigEndian.Uint16(b))
+	if extraLen > maxExtraLen || len(b) < sszSize+extraLen {
+		return 0, ErrCorruptedData
+	}
 
-	return sszSize + len(a.extra), nil
+	a.extra = make([]byte, extraLen)
+	copy(a.extra, b[sszSize:sszSize+extraLen])
+
+	return sszSize + extraLen, nil
 }
 
 func getAttributeFrom(attrCode attributeCode) (attribute, error) {
